@@ -448,7 +448,12 @@ def e4(ctx):
                             if not has_exc and not p.outcome[1].hyp:
                                 okn, witn = False, fmt_trace(tr)
                         elif p.kind == 'return':
-                            okn, witn = False, fmt_trace(tr)
+                            # swallowing the Timeout is fine when the count it carries goes into the result
+                            # (retrying the nested removal and adding timeout.args[0])
+                            carried = any(x.k == 'attr' and x.a[1] == 'args' and x.a[0].k == 'exc'
+                                          for x in values_in(p.outcome[1]))
+                            if not carried:
+                                okn, witn = False, fmt_trace(tr)
         obs.append(Ob('E4', 'Cache.%s/nested-timeout-count-kept' % name, okn,
                       'a Timeout raised by a nested bulk removal (which carries the number of items that call had '
                       'already removed) is caught and replaced by a Timeout/return that drops that number', f.loc(), witn))
